@@ -14,10 +14,15 @@ def plain(unit, h, **kw):
 
 
 # ------------------------------------------------------------------ unit civil
+CIVIL_LEMMAS = ['lemma_div146097', 'lemma_div400', 'lemma_fdshift4', 'lemma_fdshift100', 'lemma_fdshift400', 'lemma_fmshift',
+                'lemma_leapidx', 'lemma_cong', 'lemma_cong2', 'lemma_period', 'lemma_ordyear', 'lemma_lin_lift', 'lemma_lin_fits',
+                'lemma_quot_bounds', 'lemma_shift400', 'lemma_nday_lift', 'lemma_ordbound', 'lemma_valid28', 'lemma_dm_range', 'lemma_split1', 'lemma_split2', 'lemma_dm_small', 'lemma_carry',
+                'lemma_I_anchor', 'lemma_I_sk', 'lemma_I_period', 'lemma_I_leapidx', 'lemma_I_fmstep', 'lemma_I_yearstep',
+                'lemma_I_centstep', 'lemma_I_4step', 'lemma_I_monthstep', 'lemma_I_day']
+
+
 def civil_spec_lemmas():
-    return [plain('civil', 'pl_' + l, timeout=300) for l in (
-        'lemma_div146097', 'lemma_div400', 'lemma_fdshift4', 'lemma_fdshift100', 'lemma_fdshift400',
-        'lemma_period', 'lemma_ordyear', 'lemma_quot_bounds', 'lemma_shift400', 'lemma_nday_lift')]
+    return [plain('civil', 'pl_' + l, timeout=300) for l in CIVIL_LEMMAS]
 
 
 def civil_leaves():
@@ -31,7 +36,8 @@ def civil_nday():
 
 def civil_carry_chain():
     return [enforce('civil', f, timeout=300) for f in ('n_mon', 'n_hour', 'n_min', 'n_sec')] + \
-           [enforce('civil', 'align_' + t) for t in ('second', 'minute', 'hour', 'day', 'month', 'year')]
+           [enforce('civil', 'align_' + t) for t in ('second', 'minute', 'hour', 'day', 'month', 'year')] + \
+           [enforce('civil', 'ct_%s_ctor6' % t, timeout=300) for t in ('second', 'minute', 'hour', 'day', 'month', 'year')]
 
 
 PROPERTIES = {
